@@ -70,7 +70,7 @@ pub broadcast group group_chain_queries {
 //%if A
     ensures /*[C20 querier.bank-balance.succeeds]*/ r is Ok, r->Ok_0.0 as nat == querier.world().bank_bal(account_addr.0@, denom@)
 //%else
-    ensures /*[C01,C03,C04,C05,C07,C09,C12 querier.bank-balance]*/ r is Ok ==> r->Ok_0.0 as nat == querier.world().bank_bal(account_addr.0@, denom@)
+    ensures /*[C01,C03,C04,C05,C07,C09,C12,C11,C13,C02,C10,C15 querier.bank-balance]*/ r is Ok ==> r->Ok_0.0 as nat == querier.world().bank_bal(account_addr.0@, denom@)
 //%endif
 //%%head
     broadcast use group_chain_queries;
@@ -81,7 +81,7 @@ pub broadcast group group_chain_queries {
 //%if A
     ensures /*[C20 querier.token-balance.succeeds]*/ r is Ok, r->Ok_0.0 as nat == querier.world().tok_bal(contract_addr.0@, account_addr.0@)
 //%else
-    ensures /*[C01,C03,C04,C05,C07,C12 querier.token-balance]*/ r is Ok ==> r->Ok_0.0 as nat == querier.world().tok_bal(contract_addr.0@, account_addr.0@)
+    ensures /*[C01,C03,C04,C05,C07,C12,C11,C13,C02,C10,C15 querier.token-balance]*/ r is Ok ==> r->Ok_0.0 as nat == querier.world().tok_bal(contract_addr.0@, account_addr.0@)
 //%endif
 //%%head
     broadcast use group_chain_queries;
@@ -92,7 +92,7 @@ pub broadcast group group_chain_queries {
 //%if A
     ensures /*[C20 querier.token-info.succeeds]*/ r is Ok, r->Ok_0.total_supply.0 as nat == querier.world().tok_supply(contract_addr.0@)
 //%else
-    ensures /*[C03,C04,C05,C16 querier.token-info]*/ r is Ok ==> r->Ok_0.total_supply.0 as nat == querier.world().tok_supply(contract_addr.0@)
+    ensures /*[C03,C04,C05,C16,C07,C20 querier.token-info]*/ r is Ok ==> r->Ok_0.total_supply.0 as nat == querier.world().tok_supply(contract_addr.0@)
         && querier.world().tok_decimals.dom().contains(contract_addr.0@) && r->Ok_0.decimals == querier.world().tok_decimals[contract_addr.0@]
 //%endif
 //%%head
